@@ -492,6 +492,27 @@ Proof.
   pose proof (grants_sync e h s s' I R k) as G. destruct (last_grant k h); destruct G as [-> ->]; auto.
 Qed.
 
+(** the windows the client enforces and the credit the peer may rely on never decrease: a peer
+    may keep relying on max(advertised initial value, every MAX_* frame seen), and a covered
+    client keeps enforcing at least that *)
+Lemma client_step_monotone e s x s1 o : client_step e s x = (s1, o) ->
+  forall k, rw (s k) <= rw (s1 k) /\ cr (s k) <= cr (s1 k).
+Proof.
+  intros H k. destruct (client_step_windows e s x s1 o H k) as [(w & _ & -> & ->) | (_ & -> & ->)]; lia.
+Qed.
+
+Theorem limits_never_decrease e : forall h s s', inv s -> run_st e s h = Some s' ->
+  forall k, cr (s k) <= cr (s' k) /\ rw (s k) <= rw (s' k) /\ cr (s' k) <= rw (s' k).
+Proof.
+  induction h as [|x t IH]; intros s s' I R k; simpl in R.
+  - inversion R; subst. specialize (I k). lia.
+  - destruct (peer_ok e s x && grant_increasing s x); [|discriminate].
+    destruct (client_step e s x) as [s1 [c|]] eqn:C; [discriminate|].
+    pose proof (client_step_inv _ _ _ _ _ C I) as I1.
+    destruct (client_step_monotone _ _ _ _ _ C k) as [M1 M2].
+    destruct (IH s1 s' I1 R k) as (A & B & D). lia.
+Qed.
+
 (** * Every dial derives its own list from the spec's (untouched) list *)
 
 Lemma fill_iscid_fst (scid : list Z) (q : tparam) :
